@@ -38,3 +38,27 @@ Definition serialize_fast (k : encoding_kind) (v11 : bool) (version encoding : l
   | Oob => Oob
   | Thrown c => Thrown c
   end.
+
+(* the transcoder-backed writer with an arbitrary representability predicate (every encoding that is
+   neither UTF-8 nor UTF-16 by name: ISO-8859-1, US-ASCII, and with rep_all UTF-32 / UCS-4 / the alias
+   "UTF8", which can represent supplementary characters, so that a surrogate pair goes through
+   XalanOtherEncodingWriter::write(XalanUnicodeChar) and its `m_bufferRemaining < 2` guard) *)
+Definition rep_all (_ : N) : bool := true.
+
+Definition serialize_other (rep : N -> bool) (v11 : bool) (version encoding : list N) (es : list event)
+  : res (list N) :=
+  let F := fam_other rep in
+  match run (f_kbuf F) (document_items F v11 version encoding es) (wr_init (f_kbuf F)) with
+  | Ok w => Ok (all_units w)
+  | Oob => Oob
+  | Thrown c => Thrown c
+  end.
+
+Definition serialize_other_fast (rep : N -> bool) (v11 : bool) (version encoding : list N) (es : list event)
+  : res (list N) :=
+  let F := fam_other rep in
+  match run (f_kbuf F) (document_items F v11 version encoding es) (wr_init (f_kbuf F)) with
+  | Ok w => Ok (rev_append (out_rev w) (rev_append (buf_rev w) []))
+  | Oob => Oob
+  | Thrown c => Thrown c
+  end.
